@@ -11,7 +11,8 @@ name = sys.argv[3] if len(sys.argv) > 3 else prop
 dst = f"/verif/seeded/{name}"
 os.makedirs(dst, exist_ok=True)
 for f in ("patch.diff", "demo.py", "meta.json"):
-    shutil.copy(os.path.join(src, f), os.path.join(dst, f))
+    if os.path.abspath(src) != os.path.abspath(dst):
+        shutil.copy(os.path.join(src, f), os.path.join(dst, f))
 env = {**os.environ, "PYTHONPATH": "/repo/python"}
 def run(cmd, **kw):
     return subprocess.run(cmd, shell=True, capture_output=True, text=True, **kw)
